@@ -163,10 +163,10 @@ func init() {
 			"distinct = distinct byte streams x reader flavour (content hash); every case is non-trivial (at least one record is decoded and compared)",
 		Assumptions: []string{
 			"the line format is the one the out-port writes: decimal time stamp, one space, upper-case hex pairs, newline",
-			"a malformed line is: odd number of hex digits, a character that is not a hex digit in the hex field (incl. a second separator, which is what a lost terminator produces), no separator, no terminator before end of stream",
+			"a malformed line is: a character that is no decimal digit in the time stamp field (other than a leading sign), odd number of hex digits, a character that is not a hex digit in the hex field (incl. a second separator, which is what a lost terminator produces), no separator, no terminator before end of stream",
 			"lower-case hex digits are not treated as malformed",
 		},
-		Require: []string{"records_decoded", "reader:onebyte", "reader:eof-with-data", "reader:ospipe", "reader:iopipe", "mutant:odd-hex", "mutant:non-hex", "mutant:no-separator", "mutant:no-terminator", "mutant:lost-terminator", "mutants_of_long_lines", "mutant:char-before-terminator", "mutant_reader:bufio", "reader:bufio", "intact_line_after_mutant_decoded", "two_stream_sessions"},
+		Require: []string{"records_decoded", "reader:onebyte", "reader:eof-with-data", "reader:ospipe", "reader:iopipe", "mutant:odd-hex", "mutant:non-hex", "mutant:no-separator", "mutant:no-terminator", "mutant:lost-terminator", "mutants_of_long_lines", "mutant:char-before-terminator", "mutant:bad-timestamp", "mutant_reader:bufio", "reader:bufio", "intact_line_after_mutant_decoded", "two_stream_sessions"},
 		Run:     runC19,
 	})
 }
@@ -408,7 +408,7 @@ func runC19(c *mon.Ctx) {
 		line := refLine(x.ts, x.msg)
 		sp := bytes.IndexByte(line, ' ')
 		hexLen := len(line) - sp - 2
-		kind := []string{"odd-hex", "non-hex", "no-separator", "no-terminator", "lost-terminator", "char-before-terminator"}[i%6]
+		kind := []string{"odd-hex", "non-hex", "no-separator", "no-terminator", "lost-terminator", "char-before-terminator", "bad-timestamp"}[i%7]
 		var stream []byte
 		expectB := true
 		switch kind {
@@ -431,6 +431,22 @@ func runC19(c *mon.Ctx) {
 			// a carriage return (or another stray character) directly in front of the newline
 			bads := []byte("\r\r\r \t\x00;")
 			line = append(append(append([]byte(nil), line[:len(line)-1]...), bads[r.Intn(len(bads))]), '\n')
+		case "bad-timestamp":
+			// a character that is no decimal digit in the time stamp field (replaced or inserted, not a sign in front)
+			bads := []byte("xXgG.,eE_:;/#%@!\t\r\x00\x7f\xff")
+			bad := bads[r.Intn(len(bads))]
+			lo := 0
+			if line[0] == '-' {
+				lo = 1
+			}
+			if r.Bool() && sp > lo {
+				p := lo + r.Intn(sp-lo)
+				line = append([]byte(nil), line...)
+				line[p] = bad
+			} else {
+				p := lo + r.Intn(sp-lo+1)
+				line = append(append(append([]byte(nil), line[:p]...), bad), line[p:]...)
+			}
 		case "no-separator":
 			line = append(append([]byte(nil), line[:sp]...), line[sp+1:]...)
 		case "no-terminator":
